@@ -882,6 +882,27 @@ def run(tier: str, replay: str | None = None):
             elif m is not None and kind != "partial" and (not m.startswith("ERR")) != acc:
                 corr.append({"input": payload, "model": canon_model(m), "impl": "accepted" if acc else "rejected"})
 
+    # 5c. `**x` with x a union of closed mappings (preprocess_args' key-by-key merge)
+    n_union = n_union_acc = 0
+    if exe is not None and not replay:
+        ucases = gen_union_cases(rng, 1000 if not thorough else 8000)
+        umodel = lib.ocaml_run(exe, ["U" + enc_sig(s_) + "|" + enc_raw_u(r_) for s_, r_ in ucases])
+        umods = run_union_modules(ucases)
+        for (sig, raw), m, mv in zip(ucases, umodel, umods):
+            acc = impl_bind_union(sig, raw)
+            n_union += 1
+            n_union_acc += int(acc)
+            payload = {"sig": sig, "raw": raw, "def": sig_text(sig), "call": union_call_text(raw)}
+            allb, someb = union_oracle(sig, raw)
+            if acc and not allb:
+                failing.append((payload, "accepted", "a member of the union passed as **kwargs makes the call raise TypeError under CPython"))
+            elif not acc and allb:
+                failing.append((payload, "rejected (incompatible_call)", "every member of the union passed as **kwargs binds under CPython"))
+            if (not m.startswith("ERR")) != acc:
+                corr.append({"input": payload, "model": canon_model(m) if m.startswith("OK") else "ERR", "impl": "accepted" if acc else "rejected"})
+            if mv != acc:
+                e2e_bad.append({"input": payload, "module_accepts": mv, "bind_arguments_accepts": acc})
+
     # 6. verdicts
     for payload, obs, exp in failing[:10]:
         rep.violation({"kind": "failing-input", "input": payload, "observed": obs, "expected": exp, "how_to_run": "./check C05 --replay <this file>", "oracle": "CPython executes the call"})
@@ -892,7 +913,7 @@ def run(tier: str, replay: str | None = None):
         # the visitor's verdict is the property's observable: decide against CPython
         for e in e2e_bad[:5]:
             sig, raw = e["input"]["sig"], e["input"]["raw"]
-            if is_concrete(raw):
+            if is_concrete(raw) and not any(r[0] == "ux" for r in raw):
                 py_ok = cpython_call(sig, raw) != "ERR"
                 if py_ok != e["module_accepts"]:
                     rep.violation({"kind": "failing-input", "input": e["input"], "observed": "module " + ("accepts" if e["module_accepts"] else "reports incompatible_call"), "expected": "CPython " + ("binds" if py_ok else "raises TypeError")})
@@ -911,7 +932,7 @@ def run(tier: str, replay: str | None = None):
         rep.harness_error("specification PyBind.py_bind_full disagrees with CPython on " + json.dumps(sb))
 
     rep.coverage.update(
-        evaluations=len(cases) + n_e2e + n_validity + len(kind_cases),
+        evaluations=len(cases) + n_e2e + n_validity + len(kind_cases) + n_union,
         distinct_nontrivial=len(distinct),
         rule="a case = (def signature, call shape); signatures: every def-expressible signature with <=3 parameters (all kinds x default patterns), a sample (thorough: all) with 4, random ones up to 6; "
         "call shapes: positional section of plain positionals / tuple displays / unknown-length *xs, keyword section of keywords (parameter names and strangers) / dict displays / unknown **kw, "
@@ -932,6 +953,8 @@ def run(tier: str, replay: str | None = None):
         callable_kind_calls=len(kind_cases),
         callable_kind_other_codes=kind_other,
         partial_calls_never_checked=n_partial_unchecked,
+        union_of_mappings_calls=n_union,
+        union_of_mappings_accepted=n_union_acc,
         exhaustive=False,
     )
     rep.assumptions = [
@@ -1099,3 +1122,134 @@ def star_oracle_callable(fobj, eff_sig, raw):
         if some and some_ne:
             break
     return some, some_ne
+
+
+# ---------------------------------------------------------------------------
+# phase 4: `**x` with x a UNION of closed mappings (dict displays)
+#   raw item ["ux", [[names of member 1], [names of member 2], ...]]
+
+
+def gen_union_cases(rng, n):
+    out = []
+    while len(out) < n:
+        sig = random_sig(rng, 5)
+        raw = [r for r in guided_raw(rng, sig, ) if r[0] in ("p", "k")]
+        kws = [r[1] for r in raw if r[0] == "k"]
+        pool = list(dict.fromkeys(kws + [p[0] for p in sig if p[1] in (POK, KO)] + [STRANGERS[0]]))
+        if not pool:
+            continue
+        moved = rng.sample(kws, rng.randint(0, len(kws))) if kws else []
+        raw = [r for r in raw if not (r[0] == "k" and r[1] in moved)]
+        explicit = [r[1] for r in raw if r[0] == "k"]
+        cand = [k for k in pool if k not in explicit] or [STRANGERS[1]]
+        alts = []
+        for _ in range(rng.choice([2, 2, 3])):
+            alt = list(moved)
+            for k in cand:
+                if k not in alt and rng.random() < 0.3:
+                    alt.append(k)
+            if alt and rng.random() < 0.35:
+                alt.pop(rng.randrange(len(alt)))
+            rng.shuffle(alt)
+            alts.append(alt)
+        if rng.random() < 0.1 and explicit:
+            alts[0].append(explicit[0])  # a key also given explicitly: "Multiple values"
+        raw.append(["ux", alts])
+        out.append((sig, raw))
+    return out
+
+
+def enc_raw_u(raw):
+    out = []
+    for r in raw:
+        if r[0] == "ux":
+            out.append("ux " + " / ".join(" ".join(str(CODE[k]) for k in alt) for alt in r[1]))
+        else:
+            out.append(enc_raw([r]))
+    return ",".join(out)
+
+
+def union_call_text(raw, fname="f"):
+    parts = []
+    for r in raw:
+        if r[0] == "p":
+            parts.append("1")
+        elif r[0] == "k":
+            parts.append(f"{r[1]}=1")
+        elif r[0] == "ux":
+            ds = ["{" + ", ".join(f"'{k}': 1" for k in alt) + "}" for alt in r[1]]
+            expr = ds[-1]
+            for i, d in reversed(list(enumerate(ds[:-1]))):
+                expr = f"{d} if c{i} else ({expr})"
+            parts.append(f"**({expr})")
+    return f"{fname}(" + ", ".join(parts) + ")"
+
+
+def impl_bind_union(sig, raw):
+    I = _impl()
+    S, V, C = I["S"], I["V"], I["Composite"]
+    s = impl_signature(sig)
+    args = []
+    i = 0
+    for r in raw:
+        if r[0] == "p":
+            args.append((C(V.KnownValue(("p", i))), None))
+            i += 1
+        elif r[0] == "k":
+            args.append((C(V.KnownValue(("k", r[1]))), r[1]))
+        else:
+            members = [V.DictIncompleteValue(dict, [V.KVPair(V.KnownValue(k), V.KnownValue(("k", k))) for k in alt]) for alt in r[1]]
+            args.append((C(V.MultiValuedValue(members)), I["KWARGS"]))
+    ctx = S._CanAssignBasedContext(I["ck"])
+    pre = S.preprocess_args(args, ctx)
+    if pre is None:
+        return False
+    return s.bind_arguments(pre, ctx) is not None
+
+
+def union_oracle(sig, raw):
+    """(every member binds, some member binds) under CPython"""
+    f = real_function(sig)
+    npos = sum(1 for r in raw if r[0] == "p")
+    explicit = [r[1] for r in raw if r[0] == "k"]
+    res = []
+    for alt in [r for r in raw if r[0] == "ux"][0][1]:
+        if set(alt) & set(explicit) or len(set(alt)) != len(alt):
+            res.append(False)
+        else:
+            res.append(cpython_binds(f, npos, explicit + alt))
+    return all(res), any(res)
+
+
+def run_union_modules(cases, batch=200):
+    import contextlib
+    import io
+
+    from pyanalyze.error_code import ErrorCode
+    from pyanalyze.test_name_check_visitor import TestNameCheckVisitorBase
+
+    verdicts = []
+    for b0 in range(0, len(cases), batch):
+        chunk = cases[b0 : b0 + batch]
+        fn = {}
+        lines = []
+        for sig, raw in chunk:
+            key = json.dumps(sig)
+            if key not in fn:
+                fn[key] = f"f{len(fn)}"
+                lines.append(f"def {fn[key]}({header(sig)}): pass")
+        lines.append("def run(c0: bool, c1: bool, c2: bool):")
+        call_line = {}
+        for i, (sig, raw) in enumerate(chunk):
+            lines.append("    " + union_call_text(raw, fn[json.dumps(sig)]))
+            call_line[len(lines)] = i
+        buf = io.StringIO()
+        with contextlib.redirect_stderr(buf), contextlib.redirect_stdout(buf):
+            errs = TestNameCheckVisitorBase()._run_str("\n".join(lines) + "\n", fail_after_first=False)
+        v = [True] * len(chunk)
+        for e in errs:
+            i = call_line.get(e["lineno"])
+            if i is not None and e["code"] is ErrorCode.incompatible_call:
+                v[i] = False
+        verdicts += v
+    return verdicts
